@@ -47,7 +47,7 @@ Proof.
   constructor; st_goal; try assumption; try reflexivity.
   - nia.
   - lia.
-  - intros th. specialize (P th). unfold myval in *. st_goal.
+  - intros th. specialize (P th).
     destruct (ppc s th); cbn [PInv] in *; try assumption. destruct P as [P1 P2]. split; [exact P1 | lia].
   - rewrite Epc in E. exact E.
 Qed.
@@ -57,7 +57,7 @@ Lemma SInv_take s d :
   SInv cap cc n s -> cpc s = CD4 d ->
   exists v, sdata s (hslot cc n s) = Some v /\ tk s (hpos s) = TSet v /\
   SInv cap cc n (set_cpc (set_chand (set_received (set_sdata s (updN (sdata s) (hslot cc n s) None))
-                                                  (received s ++ [v])) v) (CD5 d true)).
+                                                  (received s ++ [v])) (chand s ++ [v])) (CD5 d true)).
 Proof.
   intros I Epc. pose proof I as [A1 A2 A3 A4 A5 A6 B1 B2 B3 P D T E R C Bd].
   rewrite Epc in C. cbn [CInv] in C. destruct C as [C1 [C2 C3]].
@@ -109,8 +109,8 @@ Proof.
   - lia.
   - lia.
   - intros t L. destruct (N.eq_dec t (hpos s)) as [->|Hne]; [exact Hw | apply B2; lia].
-  - intros th. specialize (P th). unfold myval in *. st_goal.
-    destruct (ppc s th); cbn [PInv] in *; try assumption; intuition lia.
+  - intros th. specialize (P th).
+    destruct (ppc s th); cbn [PInv] in *; unfold RInv in *; try assumption; intuition lia.
   - intros t v Ht L. specialize (D t v Ht). lia.
   - intros j i Hj Hi. cbv zeta. specialize (E j i Hj Hi). cbv zeta in E. destruct E as [E1 E2].
     rewrite Htk.
@@ -142,23 +142,23 @@ Lemma SInv_cstep s c s' e :
   SInv cap cc n s -> cstep cc n kk s c = Some (s', e) -> SInv cap cc n s'.
 Proof.
   intros I Hs. unfold cstep in Hs. destruct (cpc s) eqn:Epc.
-  - (* CIdle *) destruct (cprog s) as [|[] r]; inv_step Hs; unf_steps; pure_c I Epc; exact Logic.I.
+  - (* CIdle *) destruct (cprog s) as [|[|mx] r]; inv_step Hs; unf_steps; pure_c I Epc; exact Logic.I.
   - (* CLock *) unfold c_lock in Hs. inv_step Hs; [exact I|]. pure_c I Epc. exact Logic.I.
-  - (* CD1 *) inv_step Hs.
-    destruct (N.eqb_spec (ids s (ent n (hcid s))) (hcid s)) as [Er|Er]; cbn [negb]; [|pure_c I Epc; exact Logic.I].
+  - (* CD1 *) inv_step Hs. unf_steps.
+    destruct (N.eqb_spec (ids s (ent n (hcid s))) (hcid s)) as [Er|Er]; cbn [negb]; [|split_goal; pure_c I Epc; exact Logic.I].
     destruct (N.eqb_spec (hidx s) cc) as [Ei|Ei]; pure_c I Epc.
     + split; assumption.
     + split; [assumption|]. pose proof (A_idx _ _ _ _ I). lia.
   - (* CD2 *) inv_step Hs. apply SInv_retire; assumption.
-  - (* CD3 *) inv_step Hs.
+  - (* CD3 *) inv_step Hs. unf_steps.
     destruct (N.eqb_spec (sstate s (hslot cc n s)) sSET) as [Ea|Ea].
     + pure_c I Epc. destruct C as [C1 C2]. repeat split; assumption.
-    + destruct (N.eqb_spec (sstate s (hslot cc n s)) sSKIP) as [Eb|Eb]; pure_c I Epc; [|exact Logic.I].
+    + destruct (N.eqb_spec (sstate s (hslot cc n s)) sSKIP) as [Eb|Eb]; [|split_goal]; pure_c I Epc; try exact Logic.I.
       destruct C as [C1 C2]. repeat split; assumption.
   - (* CD4 *) destruct (SInv_take s d I Epc) as [v [Hd [_ Hi]]]. rewrite Hd in Hs. inv_step Hs. exact Hi.
-  - (* CD5 *) inv_step Hs. apply SInv_advance with (d := d) (b := set); [exact I | exact Epc | |];
-      split_goal; cbn [taken CInv]; trivial.
-  - (* CD6 *) inv_step Hs; pure_c I Epc; exact Logic.I.
+  - (* CD5 *) inv_step Hs. unf_steps. split_goal; (eapply SInv_advance; [exact I | exact Epc | |]);
+      cbn [taken CInv]; trivial.
+  - (* CD6 *) inv_step Hs; split_goal; pure_c I Epc; exact Logic.I.
   - (* CM1 *) inv_step Hs; pure_c I Epc; exact Logic.I.
   - (* CM2 *) inv_step Hs; split_goal; pure_c I Epc; exact Logic.I.
   - (* CUnl *) inv_step Hs; unf_steps; split_goal; pure_c I Epc; exact Logic.I.
@@ -167,9 +167,9 @@ Proof.
   - (* CP3 *) inv_step Hs; pure_c I Epc; exact Logic.I.
   - (* CP4 *) inv_step Hs; pure_c I Epc; exact Logic.I.
   - (* CP5 *) inv_step Hs; unf_steps; split_goal; pure_c I Epc; exact Logic.I.
-  - (* CSa *) inv_step Hs; split_goal; pure_c I Epc; exact Logic.I.
+  - (* CSa *) inv_step Hs; unf_steps; split_goal; pure_c I Epc; exact Logic.I.
   - (* CFl *) unfold c_lock in Hs. inv_step Hs; [exact I|]. split_goal; pure_c I Epc; exact Logic.I.
-  - (* CFu *) inv_step Hs; unf_steps; pure_c I Epc; exact Logic.I.
+  - (* CFu *) inv_step Hs; unf_steps; split_goal; pure_c I Epc; exact Logic.I.
   - (* CDropSt *) inv_step Hs; pure_c I Epc; exact Logic.I.
   - (* CWk *) unfold c_lock in Hs. destruct k; inv_step Hs; try exact I; pure_c I Epc; exact Logic.I.
   - discriminate Hs.
